@@ -12,6 +12,7 @@ import (
 
 	"pgregory.net/rapid"
 	"rare/pkg/aggregation"
+	"rare/pkg/aggregation/sorting"
 	"rare/pkg/multiterm"
 	"rare/pkg/multiterm/termrenderers"
 	"verifharness/pbt"
@@ -388,6 +389,42 @@ type SparkCase struct {
 	Obs                *pbt.Obs `json:"-"`
 }
 
+// sparkTruncate is the truncation step of cmd/spark.go's render callback
+// (columns that do not fit are trimmed from the aggregator unless
+// --notruncate), mirrored on the harness' fold: the data that "doesn't fit in
+// the sparkline" is dropped, rows left without data too.
+func sparkTruncate(counter *aggregation.TableAggregator, g *grid, colSorter sorting.NameValueSorter, numCols int) bool {
+	keepCols := counter.OrderedColumns(colSorter)
+	if len(keepCols) <= numCols {
+		return false
+	}
+	keepCols = keepCols[len(keepCols)-numCols:]
+	keepLookup := make(map[string]struct{})
+	for _, item := range keepCols {
+		keepLookup[item] = struct{}{}
+	}
+	counter.Trim(func(col, row string, val int64) bool {
+		_, ok := keepLookup[col]
+		return !ok
+	})
+	for rn, r := range g.cells {
+		for cn := range r {
+			if _, ok := keepLookup[cn]; !ok {
+				delete(r, cn)
+			}
+		}
+		if len(r) == 0 {
+			delete(g.cells, rn)
+		}
+	}
+	for cn := range g.cols {
+		if _, ok := keepLookup[cn]; !ok {
+			delete(g.cols, cn)
+		}
+	}
+	return true
+}
+
 func checkSpark(c SparkCase) error {
 	c.setGlobals()
 	o := c.Obs
@@ -418,36 +455,8 @@ func checkSpark(c SparkCase) error {
 			g.add(c.Samples[fed])
 		}
 		// Trim unused data from the data store
-		if !c.NoTruncate {
-			if keepCols := counter.OrderedColumns(colSorter); len(keepCols) > c.NumCols {
-				keepCols = keepCols[len(keepCols)-c.NumCols:]
-				keepLookup := make(map[string]struct{})
-				for _, item := range keepCols {
-					keepLookup[item] = struct{}{}
-				}
-				counter.Trim(func(col, row string, val int64) bool {
-					_, ok := keepLookup[col]
-					return !ok
-				})
-				// the same truncation on the fold: the data that "doesn't
-				// fit in the sparkline" is dropped, rows left without data too
-				for rn, r := range g.cells {
-					for cn := range r {
-						if _, ok := keepLookup[cn]; !ok {
-							delete(r, cn)
-						}
-					}
-					if len(r) == 0 {
-						delete(g.cells, rn)
-					}
-				}
-				for cn := range g.cols {
-					if _, ok := keepLookup[cn]; !ok {
-						delete(g.cols, cn)
-					}
-				}
-				o.Label(true, "truncated")
-			}
+		if !c.NoTruncate && sparkTruncate(counter, g, colSorter, c.NumCols) {
+			o.Label(true, "truncated")
 		}
 		writer.WriteTable(counter, rowSorter, colSorter)
 		writer.WriteFooter(0, "FOOTER-0")
